@@ -45,10 +45,11 @@ type xOpt struct {
 }
 
 type xCase struct {
-	idxNum int    // object number of the index array (set by xBuild)
-	Revs   []xRev `json:"revs"`
-	Opt    xOpt   `json:"opt"`
-	Newest []int  `json:"newest"`
+	idxNum int      // object number of the index array (set by xBuild)
+	cons   [][2]int // object streams written: object number, number of members (set by xBuild)
+	Revs   []xRev   `json:"revs"`
+	Opt    xOpt     `json:"opt"`
+	Newest []int    `json:"newest"`
 }
 
 func xBody(v, bl int) []byte {
@@ -176,6 +177,7 @@ func xBuild(c *xCase) ([]byte, int, error) {
 		}
 		if len(members) > 0 {
 			items = append(items, pdfw.Item{Num: next, IsObjStm: true, Members: members, FlateStm: c.Opt.Flate})
+			c.cons = append(c.cons, [2]int{next, len(members)})
 			next++
 		}
 		if rv.Kind == "stream" && !c.Opt.XLow {
@@ -258,6 +260,15 @@ func c04Case(i int, raw []byte) Result {
 		}
 	}
 	gen(nil)
+	// n+4+j: look up the j-th object stream ITSELF by its number: a stream of type ObjStm with /N members and its data,
+	// whatever members were taken out of it before
+	for j := range c.cons {
+		con := n + 4 + j
+		for _, a := range alpha[1:] {
+			seqs = append(seqs, []int{a, con}, []int{con, a, con})
+		}
+		seqs = append(seqs, []int{deepOp, con})
+	}
 	for _, first := range []int{deepOp, idxOp} {
 		for _, a := range append(append([]int{}, alpha[1:]...), idxOp) {
 			seqs = append(seqs, []int{first, a})
@@ -300,6 +311,26 @@ func c04Case(i int, raw []byte) Result {
 				rd.ClearCache()
 				if logIt {
 					ev = append(ev, Event{"event": "Clear"})
+				}
+				continue
+			}
+			if k >= n+4 {
+				con := c.cons[k-n-4]
+				o, gerr := rd.GetObject(con[0])
+				got := "error"
+				if gerr == nil {
+					got = fmt.Sprintf("%T", o)
+					if st, ok := o.(*core.Stream); ok {
+						nn, _ := st.Dict.Get("N").(core.Int)
+						got = fmt.Sprintf("object stream N=%d data=%v", int64(nn), len(st.Data) > 0)
+					}
+				}
+				if want := fmt.Sprintf("object stream N=%d data=true", con[1]); got != want {
+					rd.Close()
+					x := fail("lookup", "C04:lookup:container", fmt.Sprintf("lookup of object stream %d itself in sequence %v returned %s; the file defines an %s (history %s, options %s; numbers above %d are the object streams)",
+						con[0], seq, got, want, mustJSON(c.Revs), mustJSON(c.Opt), n+3), map[string]interface{}{"case": json.RawMessage(raw), "observed": got, "sequence": seq})
+					x.Nontrivial, x.Key, x.Evals = res.Nontrivial, res.Key, res.Evals
+					return x
 				}
 				continue
 			}
